@@ -21,6 +21,7 @@ import (
 	"path/filepath"
 	"runtime/debug"
 	"sort"
+	"strconv"
 	"strings"
 	"time"
 
@@ -38,6 +39,9 @@ type failure struct {
 	hook, core      string
 	derived         string
 	message         string // blank | non-blank
+	occurrence      string // 1..occurrences: which repetition on the same logger
+	history         string // ordinary entries logged before each terminal call
+	clock           string // how the logger's clock moves between entries
 	dev             bool
 	detail          string
 	caseID          string
@@ -45,15 +49,17 @@ type failure struct {
 
 // caseSpec is one point of the in-process product.
 type caseSpec struct {
-	core coreKind
-	dev  bool
-	hook hookSetting
-	der  derivation
-	form form
+	core  coreKind
+	dev   bool
+	hook  hookSetting
+	der   derivation
+	form  form
+	hist  string
+	clock string
 }
 
 func (c caseSpec) id() string {
-	return fmt.Sprintf("inproc|%s|dev=%v|%s|%s|%s", c.core.name, c.dev, c.hook.name(), c.der.name, c.form.id())
+	return fmt.Sprintf("inproc|%s|dev=%v|%s|%s|%s|hist=%s|clock=%s", c.core.name, c.dev, c.hook.name(), c.der.name, c.form.id(), c.hist, c.clock)
 }
 
 // outcome is what the harness observed about the call itself.
@@ -64,13 +70,21 @@ type outcome struct {
 	goexit   bool
 }
 
-// runCase executes one case and returns the violated expectations.
+// occurrences is the number of times the terminal call is repeated on the
+// same logger / core in every case; each occurrence is checked on its own.
+const occurrences = 3
+
+// runCase executes one case - a history on ONE logger: (ordinary entries,
+// terminal call) x occurrences - and returns the violated expectations of
+// every occurrence.
 func runCase(c caseSpec) []failure {
 	w := &world{panicHook: &recHook{}, fatalHook: &recHook{}}
 	w.errOut = &recSink{w: w, name: "ErrorOutput", must: never}
 	lvl := c.form.level
 	dev := c.dev || c.core.forceDev
-	opts := []zap.Option{zap.WithClock(constClock{})}
+	clock := &recClock{mode: c.clock}
+	w.clock = clock
+	opts := []zap.Option{zap.WithClock(clock)}
 	opts = append(opts, c.hook.opts(w)...)
 	var logger *zap.Logger
 	if c.core.mk != nil {
@@ -85,165 +99,206 @@ func runCase(c caseSpec) []failure {
 		logger = zap.New(core, opts...)
 	}
 	logger = c.der.f(logger)
+	// a production (non-development, hook-less) logger sharing the very core
+	sibling := zap.New(logger.Core(), zap.WithClock(clock), zap.ErrorOutput(w.errOut))
 	for i := 0; i < c.core.pre; i++ {
 		logger.Info("c06 earlier line", zap.Int("i", i))
 	}
-
-	w.stub = bridge.StubExit()
 	call, done := c.form.prepare(logger)
-	var out outcome
-	fin := make(chan struct{})
-	go func() {
-		defer close(fin)
-		defer func() {
-			r := recover()
-			w.unwound = true // the sink state from here on is "after the action"
-			if r != nil {
-				out.panicked, out.panicVal = true, r
-			} else if !out.returned {
-				out.goexit = true
-			}
-		}()
-		call()
-		out.returned = true
-	}()
-	<-fin
-	done()
-	w.stub.Unstub()
-	var fileData []byte
-	if w.file != nil {
-		st, err := w.file.f.Stat()
-		if err != nil {
-			ev.ToolError("C06: stat scratch: %v", err)
-		}
-		fileData = make([]byte, st.Size()-w.file.off)
-		if _, err := w.file.f.ReadAt(fileData, w.file.off); err != nil && len(fileData) > 0 {
-			ev.ToolError("C06: read scratch: %v", err)
-		}
-	}
-	w.closed = true
-	for _, f := range w.cleanup {
-		f()
-	}
 
-	// ---- compare with the reference model
 	cond := c.core.cond(lvl)
 	want := expectedAction(lvl, dev, c.hook)
 	var fails []failure
-	add := func(kind, detail string) {
-		fails = append(fails, failure{
-			fe: c.form.fe, family: c.form.family, via: c.form.via, kind: kind,
-			cond: lvl.String() + "-" + cond, hook: c.hook.relevant(lvl), core: c.core.name, derived: c.der.name, message: shape(c.form.msg), dev: dev,
-			detail: detail, caseID: c.id(),
+	for occ := 1; occ <= occurrences; occ++ {
+		// ---- ordinary entries before the terminal call
+		w.unwound, w.stub = false, nil
+		w.hookBase = w.panicHook.calls + w.fatalHook.calls
+		switch c.hist {
+		case histOrdinary:
+			logger.Info("c06 ordinary info")
+			logger.Error("c06 ordinary error")
+		case histSibling:
+			logger.Info("c06 ordinary info")
+			sibling.DPanic("c06 production dpanic on a sibling logger sharing the core")
+		}
+		// ---- marks: what follows belongs to this occurrence
+		for _, s := range w.sinks {
+			s.begin()
+		}
+		w.errOut.begin()
+		var fileMark int64
+		if w.file != nil {
+			st, err := w.file.f.Stat()
+			if err != nil {
+				ev.ToolError("C06: stat scratch: %v", err)
+			}
+			fileMark = st.Size()
+		}
+		pBase, fBase := w.panicHook.calls, w.fatalHook.calls
+		clockBase := clock.calls
+
+		w.stub = bridge.StubExit()
+		var out outcome
+		fin := make(chan struct{})
+		go func() {
+			defer close(fin)
+			defer func() {
+				r := recover()
+				w.unwound = true // the sink state from here on is "after the action"
+				if r != nil {
+					out.panicked, out.panicVal = true, r
+				} else if !out.returned {
+					out.goexit = true
+				}
+			}()
+			call()
+			out.returned = true
+		}()
+		<-fin
+		w.stub.Unstub()
+		var fileData []byte
+		if w.file != nil {
+			st, err := w.file.f.Stat()
+			if err != nil {
+				ev.ToolError("C06: stat scratch: %v", err)
+			}
+			fileData = make([]byte, st.Size()-fileMark)
+			if _, err := w.file.f.ReadAt(fileData, fileMark); err != nil && len(fileData) > 0 {
+				ev.ToolError("C06: read scratch: %v", err)
+			}
+		}
+		wantTS := ""
+		if clock.calls > clockBase {
+			wantTS = strconv.FormatInt(clock.last.UnixNano(), 10)
+		}
+
+		// ---- compare with the reference model
+		occ := occ
+		add := func(kind, detail string) {
+			fails = append(fails, failure{
+				fe: c.form.fe, family: c.form.family, via: c.form.via, kind: kind,
+				cond: lvl.String() + "-" + cond, hook: c.hook.relevant(lvl), core: c.core.name, derived: c.der.name, message: shape(c.form.msg), dev: dev,
+				occurrence: strconv.Itoa(occ), history: c.hist, clock: c.clock,
+				detail: detail, caseID: c.id(),
+			})
+		}
+		pCalls, fCalls := w.panicHook.calls-pBase, w.fatalHook.calls-fBase
+
+		// observed terminal actions
+		var got []string
+		if out.panicked {
+			got = append(got, fmt.Sprintf("panic(%T %q)", out.panicVal, fmt.Sprint(out.panicVal)))
+		}
+		if out.goexit {
+			got = append(got, "Goexit")
+		}
+		if w.stub.Exited {
+			got = append(got, fmt.Sprintf("exit(%d)", w.stub.Code))
+		}
+		if pCalls > 0 {
+			got = append(got, fmt.Sprintf("custom panic hook x%d", pCalls))
+		}
+		if fCalls > 0 {
+			got = append(got, fmt.Sprintf("custom fatal hook x%d", fCalls))
+		}
+		gotS := strings.Join(got, " + ")
+		if gotS == "" {
+			gotS = "nothing (the call returned normally)"
+		}
+		desc := lazyDesc(func() string {
+			return fmt.Sprintf("%s(%s) [%s, args %s] at %s on core %s (entry %s), development=%v, hooks %s, logger derivation %s, occurrence %d of %d on the same logger (entries before each: %s; clock: %s)", c.form.fe, c.form.via, c.form.level, c.form.variant, lvl, c.core.name, cond, dev, c.hook.name(), c.der.name, occ, occurrences, c.hist, c.clock)
 		})
-	}
 
-	// observed terminal actions
-	var got []string
-	if out.panicked {
-		got = append(got, fmt.Sprintf("panic(%T %q)", out.panicVal, fmt.Sprint(out.panicVal)))
-	}
-	if out.goexit {
-		got = append(got, "Goexit")
-	}
-	if w.stub.Exited {
-		got = append(got, fmt.Sprintf("exit(%d)", w.stub.Code))
-	}
-	if w.panicHook.calls > 0 {
-		got = append(got, fmt.Sprintf("custom panic hook x%d", w.panicHook.calls))
-	}
-	if w.fatalHook.calls > 0 {
-		got = append(got, fmt.Sprintf("custom fatal hook x%d", w.fatalHook.calls))
-	}
-	gotS := strings.Join(got, " + ")
-	if gotS == "" {
-		gotS = "nothing (the call returned normally)"
-	}
-	desc := lazyDesc(func() string {
-		return fmt.Sprintf("%s(%s) [%s, args %s] at %s on core %s (entry %s), development=%v, hooks %s, logger derivation %s", c.form.fe, c.form.via, c.form.level, c.form.variant, lvl, c.core.name, cond, dev, c.hook.name(), c.der.name)
-	})
-
-	only := func(ok bool) bool { return ok && len(got) == 1 }
-	switch want {
-	case actNone:
-		if len(got) != 0 {
-			add("terminates-outside-development", fmt.Sprintf("%s: DPanic outside development mode must only log, observed %s", desc, gotS))
-		}
-	default:
-		if len(got) == 0 {
-			add("no-terminal-action", fmt.Sprintf("%s: expected %s, observed %s", desc, want, gotS))
-			break
-		}
-		okAct := false
+		only := func(ok bool) bool { return ok && len(got) == 1 }
 		switch want {
-		case actPanicMsg:
-			okAct = only(out.panicked)
-			if okAct {
-				if s, isStr := out.panicVal.(string); !isStr || s != c.form.msg {
-					add("panic-value-not-message", fmt.Sprintf("%s: recovered %T %q, want the message %q", desc, out.panicVal, fmt.Sprint(out.panicVal), c.form.msg))
+		case actNone:
+			if len(got) != 0 {
+				add("terminates-outside-development", fmt.Sprintf("%s: DPanic outside development mode must only log, observed %s", desc, gotS))
+			}
+		default:
+			if len(got) == 0 {
+				add("no-terminal-action", fmt.Sprintf("%s: expected %s, observed %s", desc, want, gotS))
+				break
+			}
+			okAct := false
+			switch want {
+			case actPanicMsg:
+				okAct = only(out.panicked)
+				if okAct {
+					if s, isStr := out.panicVal.(string); !isStr || s != c.form.msg {
+						add("panic-value-not-message", fmt.Sprintf("%s: recovered %T %q, want the message %q", desc, out.panicVal, fmt.Sprint(out.panicVal), c.form.msg))
+					}
+				}
+			case actExit1:
+				okAct = only(w.stub.Exited)
+				if okAct && w.stub.Code != 1 {
+					add("exit-status-not-1", fmt.Sprintf("%s: exit status %d", desc, w.stub.Code))
+				}
+			case actGoexit:
+				okAct = only(out.goexit)
+			case actCustomPanicHook, actCustomFatalHook:
+				h, n, base := w.panicHook, pCalls, pBase
+				if want == actCustomFatalHook {
+					h, n, base = w.fatalHook, fCalls, fBase
+				}
+				okAct = only(n > 0)
+				if okAct && n != 1 {
+					add("hook-not-called-exactly-once", fmt.Sprintf("%s: hook called %d times", desc, n))
+				}
+				if okAct && h.msgs[base] != c.form.msg {
+					add("hook-entry-message", fmt.Sprintf("%s: hook saw message %q, want %q", desc, h.msgs[base], c.form.msg))
 				}
 			}
-		case actExit1:
-			okAct = only(w.stub.Exited)
-			if okAct && w.stub.Code != 1 {
-				add("exit-status-not-1", fmt.Sprintf("%s: exit status %d", desc, w.stub.Code))
-			}
-		case actGoexit:
-			okAct = only(out.goexit)
-		case actCustomPanicHook, actCustomFatalHook:
-			h := w.panicHook
-			if want == actCustomFatalHook {
-				h = w.fatalHook
-			}
-			okAct = only(h.calls > 0)
-			if okAct && h.calls != 1 {
-				add("hook-not-called-exactly-once", fmt.Sprintf("%s: hook called %d times", desc, h.calls))
-			}
-			if okAct && h.msgs[0] != c.form.msg {
-				add("hook-entry-message", fmt.Sprintf("%s: hook saw message %q, want %q", desc, h.msgs[0], c.form.msg))
+			if !okAct {
+				add("wrong-terminal-action", fmt.Sprintf("%s: expected exactly %s, observed %s", desc, want, gotS))
 			}
 		}
-		if !okAct {
-			add("wrong-terminal-action", fmt.Sprintf("%s: expected exactly %s, observed %s", desc, want, gotS))
-		}
-	}
 
-	// sink state at the moment the action ran (events after it are "late")
-	for _, s := range w.sinks {
-		if s.lateWrites > 0 {
-			add("written-after-terminal-action", fmt.Sprintf("%s: sink %s received %d Write(s) after the terminal action began", desc, s.name, s.lateWrites))
-		}
-		if !s.must(lvl) {
-			continue
-		}
-		if len(s.data) == 0 {
-			if s.lateWrites == 0 {
-				add("line-missing-at-termination", fmt.Sprintf("%s: sink %s of an accepting core holds no bytes when the action ran (writes=%d syncs=%d)", desc, s.name, s.writes, s.syncs))
+		// sink state at the moment the action ran (events after it are "late");
+		// seg is what reached the sink during this occurrence's call
+		for _, s := range w.sinks {
+			if s.lateWrites > 0 {
+				add("written-after-terminal-action", fmt.Sprintf("%s: sink %s received %d Write(s) after the terminal action began", desc, s.name, s.lateWrites))
 			}
-			continue
+			if !s.must(lvl) {
+				continue
+			}
+			seg := s.data[s.mark:]
+			if len(seg) == 0 {
+				if s.lateWrites == 0 {
+					add("line-missing-at-termination", fmt.Sprintf("%s: sink %s of an accepting core received no bytes for this entry before the action ran (it holds %d bytes of earlier entries; writes=%d syncs=%d)", desc, s.name, s.mark, s.writes, s.syncs))
+				}
+				continue
+			}
+			if problem := checkLine(seg, lvl, c.form.msg, c.form.fields, wantTS, c.core.console); problem != "" {
+				add("line-incomplete-at-termination", fmt.Sprintf("%s: sink %s: %s", desc, s.name, problem))
+				continue
+			}
+			if want != actNone && !s.synced {
+				add("sink-not-synced-at-termination", fmt.Sprintf("%s: sink %s holds the line but Sync was not called after the last Write before the action ran (syncs=%d, late syncs=%d)", desc, s.name, s.syncs, s.lateSyncs))
+			}
 		}
-		if problem := checkLine(s.data, lvl, c.form.msg, c.form.fields, c.core.pre, c.core.console); problem != "" {
-			add("line-incomplete-at-termination", fmt.Sprintf("%s: sink %s: %s", desc, s.name, problem))
-			continue
+		// a failing Write on the entry under test is reported on the ErrorOutput
+		// before control is lost
+		if c.core.wantReport && !strings.Contains(string(w.errOut.data[w.errOut.mark:]), errSinkFailure.Error()) {
+			add("write-failure-not-reported-before-termination", fmt.Sprintf("%s: a sink's Write failed on the entry but the logger's ErrorOutput received %q before the action ran (late writes to it: %d)", desc, w.errOut.data[w.errOut.mark:], w.errOut.lateWrites))
 		}
-		if want != actNone && !s.synced {
-			add("sink-not-synced-at-termination", fmt.Sprintf("%s: sink %s holds the line but Sync was not called after the last Write before the action ran (syncs=%d, late syncs=%d)", desc, s.name, s.syncs, s.lateSyncs))
+		// loggers writing to a real file (preset constructors): contents after the call
+		if w.file != nil && w.file.must(lvl) {
+			if problem := checkLine(fileData, lvl, c.form.msg, c.form.fields, "", c.core.console); problem != "" {
+				kind := "line-incomplete-after-call"
+				if len(fileData) == 0 {
+					kind = "line-missing-after-call"
+				}
+				add(kind, fmt.Sprintf("%s: the file behind stderr/stdout: %s", desc, problem))
+			}
 		}
 	}
-	// a failing Write on the entry under test is reported on the ErrorOutput
-	// before control is lost
-	if c.core.wantReport && !strings.Contains(string(w.errOut.data), errSinkFailure.Error()) {
-		add("write-failure-not-reported-before-termination", fmt.Sprintf("%s: a sink's Write failed on the entry but the logger's ErrorOutput holds %q when the action ran (late writes to it: %d)", desc, w.errOut.data, w.errOut.lateWrites))
-	}
-	// loggers writing to a real file (preset constructors): contents after the call
-	if w.file != nil && w.file.must(lvl) {
-		if problem := checkLine(fileData, lvl, c.form.msg, c.form.fields, 0, c.core.console); problem != "" {
-			kind := "line-incomplete-after-call"
-			if len(fileData) == 0 {
-				kind = "line-missing-after-call"
-			}
-			add(kind, fmt.Sprintf("%s: the file behind stderr/stdout: %s", desc, problem))
-		}
+	done()
+	w.unwound, w.stub = false, nil
+	w.closed = true
+	for _, f := range w.cleanup {
+		f()
 	}
 	return fails
 }
@@ -272,12 +327,17 @@ func shape(msg string) string {
 	return "non-blank"
 }
 
-func (u *universe) note(fe, family, cond, via, hook, core, derived, message string, dev bool) {
+func (u *universe) note(fe, family, cond, via, hook, core, derived, message, history, clock string, occs int, dev bool) {
 	k := fe + "|" + cond
 	if u.dims[k] == nil {
-		u.dims[k] = map[string]map[string]bool{"via": {}, "hook": {}, "core": {}, "derived": {}, "message": {}, "development": {}}
+		u.dims[k] = map[string]map[string]bool{"via": {}, "hook": {}, "core": {}, "derived": {}, "message": {}, "occurrence": {}, "history": {}, "clock": {}, "development": {}}
 	}
 	u.dims[k]["message"][message] = true
+	u.dims[k]["history"][history] = true
+	u.dims[k]["clock"][clock] = true
+	for i := 1; i <= occs; i++ {
+		u.dims[k]["occurrence"][strconv.Itoa(i)] = true
+	}
 	u.dims[k]["derived"][derived] = true
 	u.dims[k]["via"][via] = true
 	u.dims[k]["hook"][hook] = true
@@ -326,9 +386,12 @@ func report(run *ev.Run, u *universe, fails []failure) {
 	var baseOrder []string
 	for _, k := range order {
 		g := groups[k]
-		seen := map[string]map[string]bool{"via": {}, "hook": {}, "core": {}, "derived": {}, "message": {}, "development": {}}
+		seen := map[string]map[string]bool{"via": {}, "hook": {}, "core": {}, "derived": {}, "message": {}, "occurrence": {}, "history": {}, "clock": {}, "development": {}}
 		for _, f := range g.fs {
 			seen["message"][f.message] = true
+			seen["occurrence"][f.occurrence] = true
+			seen["history"][f.history] = true
+			seen["clock"][f.clock] = true
 			seen["via"][f.via] = true
 			seen["derived"][f.derived] = true
 			seen["hook"][f.hook] = true
@@ -336,7 +399,7 @@ func report(run *ev.Run, u *universe, fails []failure) {
 			seen["development"][fmt.Sprint(f.dev)] = true
 		}
 		base := g.kind + ":" + g.cond
-		for _, dim := range []string{"message", "via", "hook", "core", "derived", "development"} {
+		for _, dim := range []string{"message", "occurrence", "history", "clock", "via", "hook", "core", "derived", "development"} {
 			all := u.dims[g.fe+"|"+g.cond][dim]
 			if len(seen[dim]) < len(all) {
 				base += ":" + dim + "=" + strings.Join(keysOf(seen[dim]), ",")
@@ -488,6 +551,14 @@ func main() {
 		hooksSmall = hooksPaired
 		dersSmall = derivations(true)[:3]
 	}
+	var histClock [][2]string
+	for _, h := range []string{histNone, histOrdinary, histSibling} {
+		for _, cl := range clockModes {
+			histClock = append(histClock, [2]string{h, cl})
+		}
+	}
+	outer := 0
+	comboSeen := map[string]bool{}
 	groupWall := map[string]float64{}
 	groupCases := map[string]int{}
 	for _, ck := range kinds {
@@ -503,19 +574,25 @@ func main() {
 			edev := dev || ck.forceDev
 			for _, hs := range hooks {
 				for _, der := range ders {
-					for _, fm := range d.forms {
-						c := caseSpec{core: ck, dev: dev, hook: hs, der: der, form: fm}
+					outer++
+					for fi, fm := range d.forms {
+						// the (entries-before, clock) combination rotates so that
+						// every form meets every combination across the outer
+						// dimensions and vice versa
+						combo := histClock[(fi+outer)%len(histClock)]
+						c := caseSpec{core: ck, dev: dev, hook: hs, der: der, form: fm, hist: combo[0], clock: combo[1]}
 						if replayID != "" && c.id() != replayID {
 							continue
 						}
 						cond := fm.level.String() + "-" + ck.cond(fm.level)
-						u.note(fm.fe, fm.family, cond, fm.via, hs.relevant(fm.level), ck.name, der.name, shape(fm.msg), edev)
+						u.note(fm.fe, fm.family, cond, fm.via, hs.relevant(fm.level), ck.name, der.name, shape(fm.msg), c.hist, c.clock, occurrences, edev)
 						fs := runCase(c)
 						evals++
 						distinct[fmt.Sprintf("%s|%s|%s|%s|%v|%s|blank=%v", ck.group, fm.fe, cond, hs.relevant(fm.level), edev, expectedAction(fm.level, edev, hs), fm.msg == "")] = true
+						comboSeen[ck.group+"|"+fm.level.String()+"|"+c.hist+"|"+c.clock] = true
 						fails = append(fails, fs...)
 						if evals%17911 == 1 && len(samples) < 10 {
-							samples = append(samples, map[string]any{"case": c.id(), "expected_action": expectedAction(fm.level, edev, hs).String(), "expected_message": fm.msg})
+							samples = append(samples, map[string]any{"case": c.id(), "terminal_calls_on_the_same_logger": occurrences, "expected_action_each_time": expectedAction(fm.level, edev, hs).String(), "expected_message": fm.msg})
 						}
 					}
 				}
@@ -546,7 +623,7 @@ func main() {
 	}
 	results := runCrash(todo)
 	for i, r := range todo {
-		u.note(r.feName(), r.family(), r.cond(), "real-process", "unset", "file:"+r.sink, "none", "non-blank", r.level == "dpanic")
+		u.note(r.feName(), r.family(), r.cond(), "real-process", "unset", "file:"+r.sink, "none", "non-blank", histNone, "real", 1, r.level == "dpanic")
 		distinct[fmt.Sprintf("crash|%s|%s|%s", r.sink, r.front, r.level)] = true
 		fails = append(fails, results[i]...)
 		evals++
@@ -567,24 +644,29 @@ func main() {
 		"front ends: every method of *zap.Logger, *zap.SugaredLogger, *zapgrpc.Logger named DPanic*/Panic*/Fatal* or taking a zapcore.Level and returning nothing or a *CheckedEntry; methods with another result type are listed under skipped_methods",
 	}
 	run.Finish(map[string]any{
-		"evaluations":         evals,
-		"distinct_nontrivial": len(distinct),
-		"rule":                "in-process: four groups of logger kinds (healthy core compositions; cores with failing sinks - Write failing always / from the k-th write, tees in both orders, buffered over a failing sink, failing Sync; loggers built by zap.Config over base x DisableStacktrace x DisableCaller x Level x Sampling with Development as the development dimension; the preset constructors NewProduction/NewDevelopment/NewExample), each as the full product kinds x development x hook settings (panic hook x fatal hook; quick pairs the i-th choices, thorough the full product) x logger derivations x call forms (front-end method x via x level x argument shape, including blank shapes: empty message, empty template, no arguments, and for the std-log bridge empty / white-space-only / padded text), every case run on the real code with the exit stubbed; real-process: sink family x front end x level in a re-executed child leaving through the real os.Exit / uncaught panic. distinct = distinct (kind group, front-end method, level+entry condition, governing hook choice, development, expected action, blank/non-blank message) classes plus distinct child configurations; every class asserts a terminal action (or its absence for DPanic outside development) and the sink state at that moment",
-		"samples":             samples,
-		"exhaustive":          true,
-		"inprocess_cases":     inproc,
-		"child_runs":          len(todo),
-		"group_cases":         groupCases,
-		"group_wall_s":        groupWall,
-		"cores":               nKinds[""],
-		"failing_sink_cores":  nKinds["fault"],
-		"config_built_kinds":  nKinds["config"],
-		"constructor_kinds":   nKinds["constructor"],
-		"hook_settings":       len(hooksFull),
-		"derivations":         len(dersFull),
-		"call_forms":          len(d.forms),
-		"front_end_methods":   d.methods,
-		"skipped_methods":     append([]string{}, d.skipped...),
-		"levels":              []string{zapcore.DPanicLevel.String(), zapcore.PanicLevel.String(), zapcore.FatalLevel.String()},
+		"evaluations":                       evals,
+		"distinct_nontrivial":               len(distinct),
+		"rule":                              "in-process: four groups of logger kinds (healthy core compositions; cores with failing sinks - Write failing always / from the k-th write, tees in both orders, buffered over a failing sink, failing Sync; loggers built by zap.Config over base x DisableStacktrace x DisableCaller x Level x Sampling with Development as the development dimension; the preset constructors NewProduction/NewDevelopment/NewExample), each as the full product kinds x development x hook settings (panic hook x fatal hook; quick pairs the i-th choices, thorough the full product) x logger derivations x call forms (front-end method x via x level x argument shape, including blank shapes: empty message, empty template, no arguments, and for the std-log bridge empty / white-space-only / padded text), every case run on the real code with the exit stubbed; real-process: sink family x front end x level in a re-executed child leaving through the real os.Exit / uncaught panic. distinct = distinct (kind group, front-end method, level+entry condition, governing hook choice, development, expected action, blank/non-blank message) classes plus distinct child configurations; every class asserts a terminal action (or its absence for DPanic outside development) and the sink state at that moment",
+		"samples":                           samples,
+		"exhaustive":                        true,
+		"inprocess_cases":                   inproc,
+		"child_runs":                        len(todo),
+		"terminal_calls_checked":            inproc*occurrences + len(todo),
+		"occurrences_per_case":              occurrences,
+		"entries_before_each_terminal_call": []string{histNone, histOrdinary, histSibling},
+		"clock_modes":                       clockModes,
+		"group_level_history_clock_classes": len(comboSeen),
+		"group_cases":                       groupCases,
+		"group_wall_s":                      groupWall,
+		"cores":                             nKinds[""],
+		"failing_sink_cores":                nKinds["fault"],
+		"config_built_kinds":                nKinds["config"],
+		"constructor_kinds":                 nKinds["constructor"],
+		"hook_settings":                     len(hooksFull),
+		"derivations":                       len(dersFull),
+		"call_forms":                        len(d.forms),
+		"front_end_methods":                 d.methods,
+		"skipped_methods":                   append([]string{}, d.skipped...),
+		"levels":                            []string{zapcore.DPanicLevel.String(), zapcore.PanicLevel.String(), zapcore.FatalLevel.String()},
 	})
 }
